@@ -1017,7 +1017,19 @@ pub async fn start_replication_supervisor(
                     }
                     // Add secoundary to secoundary
                     Some("new-secoundary") => {
-                        if !dbs.has_cluster_memeber(&name) {
+                        if name == tcp_addr.to_string() {
+                            // The primary announces every secondary to every secondary, also to
+                            // itself: a node is a member of its own cluster view, but it does not
+                            // open a replication link to itself (it would send its own data to
+                            // itself again on every join)
+                            if !dbs.has_cluster_memeber(&name) {
+                                dbs.add_cluster_member(ClusterMember {
+                                    name: name.clone(),
+                                    role: ClusterRole::Secoundary,
+                                    sender: None,
+                                });
+                            }
+                        } else if !dbs.has_cluster_memeber(&name) {
                             // Notify the members in the cluster about the new member
                             send_cluster_state_to_the_new_member(&sender, &dbs, &name);
                             let guard = add_secondary_to_secoundary(
